@@ -46,7 +46,7 @@ func lengthPrefixes(b []byte, base int, depth int, out *[][2]int) {
 }
 
 func runC08(cfg *config, res *monitor.Result) {
-	ntrees := 8
+	ntrees := 16
 	nrandom := 300
 	if cfg.thorough() {
 		ntrees = 120
